@@ -824,6 +824,7 @@ impl rustc_driver::Callbacks for Cb {
         let mut consts = Vec::new();
         let mut unsafes = Vec::new();
         let mut functions = Vec::new();
+        let mut errors: Vec<J> = Vec::new();
 
         for id in tcx.hir_free_items() {
             let did = id.owner_id.to_def_id();
@@ -934,13 +935,21 @@ impl rustc_driver::Callbacks for Cb {
                             unsafes.push(J::Obj(vec![("what", s("unsafe fn")), ("file", s(f)), ("line", J::Num(l as i128))]));
                         }
                     }
-                    let body = tcx.optimized_mir(did);
                     let k = match kind {
                         DefKind::Fn => "fn",
                         DefKind::AssocFn => "assoc",
                         _ => "closure",
                     };
-                    functions.push(function_json(tcx, did, body, k));
+                    // an internal compiler error while rendering one body must not take the whole extraction down:
+                    // the body is recorded as failed (rules that need it then fail closed on the missing anchor)
+                    let r = std::panic::catch_unwind(std::panic::AssertUnwindSafe(|| {
+                        let body = tcx.optimized_mir(did);
+                        function_json(tcx, did, body, k)
+                    }));
+                    match r {
+                        Ok(j) => functions.push(j),
+                        Err(_) => errors.push(s(format!("body {}", dps(tcx, did)))),
+                    }
                 }
                 DefKind::Const { .. } | DefKind::AssocConst { .. } => {
                     let ty = tcx.type_of(did).instantiate_identity().skip_norm_wip();
@@ -1020,6 +1029,7 @@ impl rustc_driver::Callbacks for Cb {
             ("consts", J::Arr(consts)),
             ("statics", J::Arr(statics)),
             ("unsafe", J::Arr(unsafes)),
+            ("driver_errors", J::Arr(errors)),
         ]);
         let mut out = String::new();
         root.write(&mut out);
